@@ -392,10 +392,6 @@ AUDIT = {
         ('counting argument: the complement of R indexes in 0..L has at least U = L - R elements', fp_counting_argument),
     PF + 'core_proof_gen::{closure#1}#overflow:tmp-1':
         ('L - 1 inside the find predicate: the predicate only runs for a non-empty index list and R <= L was checked', fp_find_closure_nonempty),
-    POKI + 'blind_proof_gen::{closure#3}#overflow:j+tmp':
-        ('j < M was validated by any(|&i| i >= M) before the closure is created', fp_blind_proof_gen_shift),
-    POKI + 'blind_proof_gen::{closure#3}#overflow:(j Add tmp)+1':
-        ('j < M was validated by any(|&i| i >= M) before the closure is created', fp_blind_proof_gen_shift),
 }
 
 
